@@ -1,5 +1,5 @@
 """Property -> rules registry."""
-from .rules import kernel, incr, rot, sched, meas, integrator, kal, purity, diff, sensor, layout, geo
+from .rules import kernel, incr, rot, sched, meas, integrator, kal, purity, diff, sensor, layout, geo, errmodel
 
 PROPS = {
     'C01': dict(
@@ -177,6 +177,29 @@ PROPS = {
         undecided=['ECEF -> geodetic round trip (Olson iteration is numerical)',
                    'behaviour exactly at the poles (division by cos lat)',
                    'scalar/vector call-form agreement']),
+    'C05': dict(
+        rules=[errmodel.es_inv, errmodel.es_first, errmodel.es_perturb, integrator.es_copy,
+               integrator.es_2drows, geo.geo_perturb, geo.role_radii],
+        decided=['output->internal is a left inverse of internal->output by construction (same '
+                 'builder, inv, S E = I_7)',
+                 'a correction changes the state, to first order, by exactly -T_out x in output '
+                 'coordinates (position, velocity, Euler angles; 3-D and 2-D) - symbolic',
+                 'perturb_pva adds the output-space error to first order',
+                 '2-D: down / VD rows identically zero; correction returns input altitude / VD'],
+        undecided=['size of the second-order residual (a Taylor remainder)',
+                   'behaviour at the pitch singularity']),
+    'C04': dict(
+        rules=[errmodel.em_2d, errmodel.em_units, errmodel.em_frame, errmodel.em_gravgrad,
+               kernel.ker_consist, kernel.sib_grav],
+        decided=['dimensional homogeneity of every entry of F, B_gyro, B_accel, the output '
+                 'transform and the Jacobians', 'body-frame covariance of the coupling matrices, F '
+                 'independent of attitude', '7-state model is exactly S F E / S B of the 9-state '
+                 'model; embedding call sites', 'vertical coupling = gravity gradient of '
+                 'earth.gravity; integrator and model share the earth functions (kernel tied to '
+                 'them by first-order consistency)'],
+        undecided=['that every block equals the measured sensitivity of the integrator (signs and '
+                   'dimensionless factors with consistent units, e.g. 2*Omega+rho vs Omega+rho)',
+                   'size of the neglected terms', 'accuracy of the trapezoidal propagation']),
 }
 
 
